@@ -38,3 +38,12 @@ int verif_snprintf(char *buf, size_t size, const char *fmt, struct varg a, struc
 #define verif_snprintf3(buf, size, fmt, a, b, c) verif_snprintf(buf, size, fmt, VARG(a), VARG(b), VARG(c))
 #define snprintf(buf, size, ...) \
   VERIF_PICK4(__VA_ARGS__, verif_snprintf3, verif_snprintf2, verif_snprintf1, verif_snprintf0)(buf, size, __VA_ARGS__)
+
+/* the same for fprintf(stream, fmt[, a[, b[, c]]]) */
+int verif_fprintf(FILE *stream, const char *fmt, struct varg a, struct varg b, struct varg c);
+#define verif_fprintf0(f, fmt) verif_fprintf(f, fmt, VARG_NONE, VARG_NONE, VARG_NONE)
+#define verif_fprintf1(f, fmt, a) verif_fprintf(f, fmt, VARG(a), VARG_NONE, VARG_NONE)
+#define verif_fprintf2(f, fmt, a, b) verif_fprintf(f, fmt, VARG(a), VARG(b), VARG_NONE)
+#define verif_fprintf3(f, fmt, a, b, c) verif_fprintf(f, fmt, VARG(a), VARG(b), VARG(c))
+#define fprintf(f, ...) \
+  VERIF_PICK4(__VA_ARGS__, verif_fprintf3, verif_fprintf2, verif_fprintf1, verif_fprintf0)(f, __VA_ARGS__)
